@@ -1472,7 +1472,7 @@ class CalendarDateRange(Range):
                 f"not {type(val)}."
             )
         for n in val:
-            if not isinstance(n, dt.date):
+            if not isinstance(n, dt.date) or isinstance(n, dt.datetime):
                 raise ValueError(
                     f"{_validate_error_prefix(self)} only takes date types, "
                     f"not {val}."
